@@ -110,6 +110,14 @@ func groundStringFacts(terms []*T) []*T {
 				}
 			}
 		}
+		for _, k := range sortedKeys(c.eqlits) {
+			t := c.eqlits[k]
+			xs, lit := t.Args[0], t.Args[1]
+			if ls, ok := IsStrLit(lit); ok {
+				add(Eq(t, bytewiseEq(xs, ls)))
+				add(Implies(t, Eq(xs, lit)))
+			}
+		}
 		for _, k := range sortedKeys(c.sats) {
 			t := c.sats[k]
 			s, i := t.Args[0], t.Args[1]
